@@ -31,11 +31,13 @@ def parseOptBytes (s : String) : Option (Option Bytes) :=
 def handle : List String → Option String
   | ["head", b, dh] => do
     pure (match requestHead (← bytesOfHex b) (← parseOptBytes dh) with
-      | .error e => "err:" ++ errStr e
+      | .err e => "err:" ++ errStr e
+      | .panic _ => "panic"
       | .ok h => "ok " ++ showHead h ++ s!" early={h.earlyStart}")
   | ["headers", b] => do
     pure (match parseHeaders (← bytesOfHex b) with
-      | .error e => "err:" ++ errStr e
+      | .err e => "err:" ++ errStr e
+      | .panic _ => "panic"
       | .ok (h, e) => s!"ok end={e} h={listStr (sortStrs (h.map fun x => hexOfBytes x.1 ++ "=" ++ hexOfBytes x.2))}")
   -- request <stream> [sched pattern] <default host|none> <max head> <body limit>
   | ["request", s, sc, dh, mx, lim] => do
@@ -48,7 +50,8 @@ def handle : List String → Option String
       | .error e => "err:" ++ errStr e
       | .ok buf =>
         match requestHead buf dflt with
-        | .error e => "err:" ++ errStr e
+        | .err e => "err:" ++ errStr e
+        | .panic _ => "panic"
         | .ok h =>
           let early := buf.drop h.earlyStart
           let socket := stream.drop buf.length
